@@ -14,6 +14,8 @@ OPS = ['afb1d', 'sfb1d', 'DWT1DForward', 'DWT1DInverse', 'DWTForward', 'DWTInver
 
 def oracle_pr(ck, dims, m, J, name, x):
     import pywt
+    if isinstance(name, (tuple, list)):
+        return oracle_pr2(ck, m, J, name[0], name[1], x)
     w = pywt.Wavelet(name); L = w.dec_len
     dec = (np.array(w.dec_lo), np.array(w.dec_hi)); rec = (np.array(w.rec_lo), np.array(w.rec_hi))
     # PyWavelets' own reconstruction error on the same input is the yardstick (dmey etc.)
@@ -71,6 +73,38 @@ def oracle_pr(ck, dims, m, J, name, x):
     return 'diff'
 
 
+def oracle_pr2(ck, m, J, ncol, nrow, x):
+    """2-D round trip with a different wavelet per axis (4-tuple waves)"""
+    import pywt
+    wc, wr = pywt.Wavelet(ncol), pywt.Wavelet(nrow)
+    desc = '2D PR cols=%s rows=%s mode=%s J=%d shape=%s' % (ncol, nrow, gen.MODE_NAME[m], J, tuple(x.shape))
+    replay = {'oracle': 'pr', 'dims': 2, 'm': m, 'J': J, 'name': [ncol, nrow], 'x': arr_json(x)}
+    try:
+        c = pywt.wavedec2(x, (wc, wr), mode=gen.MODE_NAME[m], level=J); r = pywt.waverec2(c, (wc, wr), mode=gen.MODE_NAME[m])
+        perr = float(np.max(np.abs(r[..., :x.shape[-2], :x.shape[-1]] - x)))
+    except Exception:
+        return None
+    sh, _ = level_sizes(x.shape[-2], wc.dec_len, m, J); sw, _ = level_sizes(x.shape[-1], wr.dec_len, m, J)
+    short = (per_short_fwd(sh, wc.dec_len, m) or per_short_fwd(sw, wr.dec_len, m) or per_short_inv([(n + 1) // 2 for n in sh], wc.dec_len, m)
+             or per_short_inv([(n + 1) // 2 for n in sw], wr.dec_len, m))
+    dec = [np.array(wc.dec_lo), np.array(wc.dec_hi), np.array(wr.dec_lo), np.array(wr.dec_hi)]
+    rec = [np.array(wc.rec_lo), np.array(wc.rec_hi), np.array(wr.rec_lo), np.array(wr.rec_hi)]
+    fw = rt.run_impl(rt.Case('Z', 'DWTForward', [m, J, 4], dec + [x]), IMPL)
+    if isinstance(fw, tuple):
+        return None
+    bw = rt.run_impl(rt.Case('Z', 'DWTInverse', [m, 4], rec + list(fw)), IMPL)
+    if isinstance(bw, tuple):
+        ck.fail(desc + ': inverse raises %s: %s' % (bw[1], bw[2]), replay, known_key=KF if short else None); return 'raise'
+    y = bw[0]
+    if y.shape[-2] not in (x.shape[-2], x.shape[-2] + 1) or y.shape[-1] not in (x.shape[-1], x.shape[-1] + 1):
+        ck.fail(desc + ': output extent %s for input %s' % (tuple(y.shape[-2:]), tuple(x.shape[-2:])), replay, known_key=KF if short else None); return 'shape'
+    err = float(np.max(np.abs(y[..., :x.shape[-2], :x.shape[-1]] - x)))
+    if err > max(10 * perr, 1e-9 * max(1.0, float(np.max(np.abs(x))))):
+        ck.fail(desc + ': max reconstruction error %.3g (PyWavelets: %.3g)' % (err, perr), replay, known_key=KF if short else None); return 'diff'
+    ck.oracle_ok((2, m, J, ncol, nrow, tuple(x.shape)), group='pr2d-per-axis', sample={'cols': ncol, 'rows': nrow, 'mode': gen.MODE_NAME[m], 'J': J, 'shape': list(x.shape), 'max_err': err})
+    return None
+
+
 def oracle(ck, extended):
     rng = ck.rng
     import pywt
@@ -84,10 +118,13 @@ def oracle(ck, extended):
         dyn = rng.choice([1.0, 1.0, 1e3, 1e-2])
         if it % 2 == 0:
             N = max(2, rng.choice([L + rng.randint(-3, 9), 2 * L + 1, rng.randint(2, 48), L * (2 ** J) + rng.randint(0, 3)]))
-            oracle_pr(ck, 1, m, J, name, gen.float_tensor(ck.nprng, (rng.randint(1, 2), rng.randint(1, 2), N), dyn))
+            rt.guard(ck, oracle_pr, ck, 1, m, J, name, gen.float_tensor(ck.nprng, (rng.randint(1, 2), rng.randint(1, 2), N), dyn))
         else:
             H = max(2, rng.choice([L + rng.randint(-2, 5), rng.randint(2, 28)])); W = max(2, rng.choice([L + rng.randint(-2, 5), rng.randint(2, 28)]))
-            oracle_pr(ck, 2, m, J, name, gen.float_tensor(ck.nprng, (1, rng.randint(1, 2), H, W), dyn))
+            if rng.random() < 0.4:
+                rt.guard(ck, oracle_pr, ck, 2, m, J, (name, rng.choice(names)), gen.float_tensor(ck.nprng, (1, rng.randint(1, 2), H, W), dyn))
+            else:
+                rt.guard(ck, oracle_pr, ck, 2, m, J, name, gen.float_tensor(ck.nprng, (1, rng.randint(1, 2), H, W), dyn))
 
 
 def run(ck):
